@@ -68,13 +68,14 @@ def Charged (c rev : Rev ρ σ) (cost : Nat) : Prop :=
 `[offset, offset+length)` of the sector with the requested root — for every message list. -/
 theorem read_ok_exact (P : Prims ρ π σ) (sectorRoot : List Nat → ρ) (metaRoot : List ρ → ρ)
     (hS : Sound P sectorRoot metaRoot) (prices : Prices) (reqOk : Bool) (sec : List Nat)
-    (hsec : sec.length = sectorSize) (offset length : Nat) (msgs : List (Msg ρ π σ))
+    (hsec : sec.length = sectorSize) (offset length : Nat) (wcap : Option Nat) (msgs : List (Msg ρ π σ))
     (out : List Nat) (u : Usage)
-    (h : rpcRead Cfg.fixed P prices reqOk ⟨sectorRoot sec, offset, length⟩ msgs = .ok (out, u)) :
-    out = slice sec offset length ∧ out.length = length ∧ u = readCost prices length := by
+    (h : rpcRead Cfg.fixed P prices reqOk ⟨sectorRoot sec, offset, length, wcap⟩ msgs = .ok (out, u)) :
+    out = slice sec offset length ∧ out.length = length ∧ u = readCost prices length ∧
+    writerAccepts wcap out.length = true := by
   simp only [rpcRead, bind_ok_iff, check_ok_iff, expectReadResp_ok, pure_ok_iff, exists_const,
     Prod.mk.injEq] at h
-  obtain ⟨hv, r, _, hdl, _, hlen, hvr, hout, hu⟩ := h
+  obtain ⟨hv, r, _, hdl, hw, _, hlen, hvr, hout, hu⟩ := h
   simp only [Cfg.fixed, Bool.not_true, Bool.false_or, beq_iff_eq] at hdl hlen
   simp only [Bool.and_eq_true, readValid, bne_iff_ne, ne_eq, decide_eq_true_eq, beq_iff_eq] at hv
   obtain ⟨_, ⟨⟨hne, hoff⟩, hle⟩, hal⟩ := hv
@@ -92,18 +93,32 @@ theorem read_ok_exact (P : Prims ρ π σ) (sectorRoot : List Nat → ρ) (metaR
   have hoff' : leafSize * (offset / leafSize) = offset := by
     simp only [leafSize, sectorSize] at *
     omega
-  refine ⟨?_, hlen, hu.symm⟩
+  rw [hout] at hw
+  refine ⟨?_, hlen, hu.symm, hw⟩
   rw [hrange, hoff', ← hl]
+
+/-- **a failing writer is a failing call**: if the caller's writer stops accepting bytes before the
+whole verified range has been handed to it, the call does not report success — for every host
+message list. -/
+theorem read_writer_failure_is_error (P : Prims ρ π σ) (prices : Prices) (reqOk : Bool) (cfg : Cfg)
+    (root : ρ) (offset length k : Nat) (hk : k < length) (msgs : List (Msg ρ π σ)) :
+    ∀ r, rpcRead (Cfg.mk true cfg.checkRootsLen cfg.checkFreeShape) P prices reqOk ⟨root, offset, length, some k⟩ msgs ≠ .ok r := by
+  intro r h
+  simp only [rpcRead, bind_ok_iff, check_ok_iff, expectReadResp_ok, pure_ok_iff, exists_const,
+    Bool.not_true, Bool.false_or, beq_iff_eq] at h
+  obtain ⟨_, a, _, hdl, hw, _, hlen, _, _⟩ := h
+  simp only [writerAccepts, decide_eq_true_eq] at hw
+  omega
 
 /-- the pinned client (no `DataLength` check) reports success on a 32-byte request at offset 32
 when the host sends the whole enclosing leaf with a proof that verifies — 64 bytes reach the
 caller.  (Finding C10/read-unaligned; the real code was shown doing this by `harness/c10`.) -/
 theorem read_pinned_overdelivers (P : Prims ρ π σ) (prices : Prices) (root : ρ) (pf : π)
     (leaf : List Nat) (hl : leaf.length = 64) (hv : P.verifyRange pf leaf 0 1 root = true) :
-    rpcRead Cfg.pinned P prices true ⟨root, 32, 32⟩ [.readResp pf 64, .stream leaf]
+    rpcRead Cfg.pinned P prices true ⟨root, 32, 32, none⟩ [.readResp pf 64, .stream leaf]
       = .ok (leaf, readCost prices 32) := by
   have hp : pulled leaf 64 64 = leaf := by simp [pulled, ← hl]
-  simp [rpcRead, Bind.bind, Res.bind, check, expectReadResp, streamOf, pure, readValid, Cfg.pinned,
+  simp [rpcRead, writerAccepts, Bind.bind, Res.bind, check, expectReadResp, streamOf, pure, readValid, Cfg.pinned,
     leafSize, sectorSize, hp, hl, hv]
 
 /-! ## write, verify -/
@@ -358,7 +373,7 @@ theorem read_rejects_bad_proof (P : Prims ρ π σ) (prices : Prices) (reqOk : B
     ∀ r, rpcRead cfg P prices reqOk p (.readResp pf n :: rest) ≠ .ok r := by
   intro r h
   simp only [rpcRead, bind_ok_iff, check_ok_iff, expectReadResp_ok, pure_ok_iff, exists_const] at h
-  obtain ⟨_, a, hm, _, _, _, hv, _⟩ := h
+  obtain ⟨_, a, hm, _, _, _, _, hv, _⟩ := h
   simp only [List.cons.injEq, Msg.readResp.injEq] at hm
   rw [← hm.1.1, hbad] at hv
   cases hv
@@ -450,7 +465,7 @@ example : rpcRead (ρ := Nat) (π := Nat) (σ := Nat) Cfg.fixed
     { verifySig := fun _ _ _ => true, rootOfData := fun _ => 0, verifyRange := fun pf _ _ _ _ => pf == 1,
       verifyLeaf := fun _ _ _ _ => true, verifyFree := fun _ _ _ _ _ _ => true, freeShapeOk := fun _ _ _ _ => true,
       verifyAppend := fun _ _ _ _ _ => true, verifyRoots := fun _ _ _ _ _ _ => true }
-    ⟨0, 0, 100, 0, 0, 0⟩ true ⟨7, 64, 64⟩ [.readResp 1 64, .stream (List.replicate 64 9)]
+    ⟨0, 0, 100, 0, 0, 0⟩ true ⟨7, 64, 64, none⟩ [.readResp 1 64, .stream (List.replicate 64 9)]
     = .ok (List.replicate 64 9, { egress := 409600 }) := by decide
 
 /-- … and the over-long answer the pinned client accepted is now an error -/
@@ -458,7 +473,7 @@ example : rpcRead (ρ := Nat) (π := Nat) (σ := Nat) Cfg.fixed
     { verifySig := fun _ _ _ => true, rootOfData := fun _ => 0, verifyRange := fun pf _ _ _ _ => pf == 1,
       verifyLeaf := fun _ _ _ _ => true, verifyFree := fun _ _ _ _ _ _ => true, freeShapeOk := fun _ _ _ _ => true,
       verifyAppend := fun _ _ _ _ _ => true, verifyRoots := fun _ _ _ _ _ _ => true }
-    ⟨0, 0, 100, 0, 0, 0⟩ true ⟨7, 32, 32⟩ [.readResp 1 64, .stream (List.replicate 64 9)]
+    ⟨0, 0, 100, 0, 0, 0⟩ true ⟨7, 32, 32, none⟩ [.readResp 1 64, .stream (List.replicate 64 9)]
     = .err := by decide
 
 end Verif.C10
